@@ -624,6 +624,8 @@ pub fn run(args: &Args, rep: &mut Report, dl: &Deadline) -> Value {
             })
         })
         .collect();
+    // (HTTP/2 clients run on this thread meanwhile)
+    let h2_done = run_h2(addr, args, rep, stop_at);
     let mut total = 0;
     for h in handles {
         match h.join() {
@@ -635,7 +637,142 @@ pub fn run(args: &Args, rep: &mut Report, dl: &Deadline) -> Value {
         }
     }
     json!({"requests": total, "planned": n_threads * per_thread, "server": "pavex::server::Server, 2 workers, loopback",
-           "client_threads": n_threads})
+           "client_threads": n_threads, "h2_requests": h2_done})
+}
+
+// ------------------------------------------------------------------------------------ HTTP/2 clients
+
+/// A request body that hands out exactly the scripted DATA frames.
+struct H2Frames(std::collections::VecDeque<bytes::Bytes>);
+
+impl hyper::body::Body for H2Frames {
+    type Data = bytes::Bytes;
+    type Error = std::convert::Infallible;
+    fn poll_frame(mut self: Pin<&mut Self>, _cx: &mut Context<'_>) -> Poll<Option<Result<hyper::body::Frame<Self::Data>, Self::Error>>> {
+        Poll::Ready(self.0.pop_front().map(|b| Ok(hyper::body::Frame::data(b))))
+    }
+}
+
+async fn send_h2(addr: SocketAddr, limit: &str, body: &[u8], sizes: &[usize], content_length: Option<u64>, kind: &str) -> Result<(u16, String), String> {
+    use http_body_util::BodyExt;
+    let stream = tokio::net::TcpStream::connect(addr).await.map_err(|e| format!("connect: {e}"))?;
+    let (mut sender, conn) = hyper::client::conn::http2::handshake(hyper_util::rt::TokioExecutor::new(), hyper_util::rt::TokioIo::new(stream))
+        .await
+        .map_err(|e| format!("handshake: {e}"))?;
+    let driver = tokio::spawn(conn);
+    let mut frames = std::collections::VecDeque::new();
+    let mut off = 0;
+    for n in sizes {
+        frames.push_back(bytes::Bytes::copy_from_slice(&body[off..off + n]));
+        off += n;
+    }
+    let mut req = Request::builder().method("POST").uri(format!("http://{addr}/")).header("x-limit", limit).header("x-kind", kind);
+    if let Some(cl) = content_length {
+        req = req.header("content-length", cl.to_string());
+    }
+    let resp = sender.send_request(req.body(H2Frames(frames)).map_err(|e| e.to_string())?).await.map_err(|e| format!("send: {e}"))?;
+    let status = resp.status().as_u16();
+    let text = resp.into_body().collect().await.map(|c| String::from_utf8_lossy(&c.to_bytes()).to_string()).map_err(|e| format!("body: {e}"))?;
+    driver.abort();
+    Ok((status, text))
+}
+
+/// HTTP/2 (prior knowledge, cleartext) against the same server: a body needs no `content-length` there, and its DATA
+/// frames reach the extractor as the client cut them.
+fn run_h2(addr: SocketAddr, args: &Args, rep: &mut Report, stop_at: std::time::Instant) -> u64 {
+    let rt = match tokio::runtime::Builder::new_current_thread().enable_all().build() {
+        Ok(rt) => rt,
+        Err(e) => {
+            rep.inconclusive("no runtime for the HTTP/2 client", json!({"error": e.to_string()}));
+            return 0;
+        }
+    };
+    let mut rng = Rng::new(args.seed).derive(0x4832 + args.shard * 7919);
+    let planned: u64 = if args.thorough { 40_000 } else { 600 };
+    let mut done = 0;
+    for _ in 0..planned {
+        if std::time::Instant::now() >= stop_at {
+            break;
+        }
+        let l = *rng.pick(&[0u64, 1, 2, 7, 16, 64, 1000, 4096]);
+        let body_len = match rng.below(9) {
+            0 => 0,
+            1 => l.saturating_sub(1),
+            2 | 3 => l,
+            4 | 5 => l + 1,
+            6 => 2 * l + 1,
+            7 => rng.range(0, l),
+            _ => rng.range(l + 1, 2 * l + 3),
+        } as usize;
+        let body = make_payload(PayloadKind::Raw, body_len, rng.next());
+        let mut sizes = vec![];
+        let mut left = body.len();
+        while left > 0 {
+            let n = if sizes.len() >= 5 || rng.chance(1, 3) { left } else { rng.range(1, left as u64) as usize };
+            sizes.push(n);
+            left -= n;
+        }
+        let with_cl = rng.chance(1, 3);
+        let class = if with_cl { "h2_cl_truthful" } else { "h2_cl_absent" };
+        let cl = if with_cl { Some(body.len() as u64) } else { None };
+        let answer = rt.block_on(async { tokio::time::timeout(Duration::from_secs(10), send_h2(addr, &l.to_string(), &body, &sizes, cl, "raw")).await });
+        let describe = || json!({"via": "public_h2", "limit": l, "body_len": body.len(), "frames": sizes, "content_length": cl});
+        let (status, text) = match answer {
+            Ok(Ok(x)) => x,
+            Ok(Err(why)) => {
+                rep.group("h2_outcomes", "no_answer");
+                rep.inconclusive("no HTTP/2 answer from the server", json!({"why": why, "case": describe()}));
+                continue;
+            }
+            Err(_) => {
+                rep.inconclusive("HTTP/2 request timed out", json!({"case": describe()}));
+                continue;
+            }
+        };
+        done += 1;
+        if status != 200 {
+            rep.group("h2_outcomes", "http_layer_rejection");
+            continue;
+        }
+        if let Some(p) = text.strip_prefix("panic ") {
+            rep.violation(json!({"kind":"panic","via":"public_h2","site":bodyx::panic_site(p)}), json!({"panic": p, "case": describe()}));
+            continue;
+        }
+        let words: Vec<&str> = text.split_whitespace().collect();
+        let outcome = match (words.first().copied(), words.get(1).copied()) {
+            (Some("ok"), Some(n)) => Outcome::Ok {
+                len: n.parse().unwrap_or(usize::MAX),
+                hash: u64::from_str_radix(words.get(2).copied().unwrap_or("0"), 16).unwrap_or(0),
+            },
+            (Some("err"), Some("size_limit")) => Outcome::SizeLimit,
+            (Some("err"), Some(_)) => Outcome::Unexpected,
+            _ => {
+                rep.inconclusive("unparseable handler answer (h2)", json!({"answer": text, "case": describe()}));
+                continue;
+            }
+        };
+        let claim = match cl {
+            Some(v) => claim_of(&[v.to_string().into_bytes()], l),
+            None => Claim::NotAbove,
+        };
+        let facts = Facts { via: "public_h2", limit: Some(l), sent: &body, transport_error: false, claim, cl_class: class };
+        let same = match &outcome {
+            Outcome::Ok { len, hash } => *len == body.len() && *hash == fnv64(&body),
+            _ => true,
+        };
+        if let Some((sig, why)) = judge(&facts, &outcome, same) {
+            rep.violation(sig, json!({"why": why, "answer": text, "case": describe()}));
+        }
+        let okind = match outcome {
+            Outcome::Ok { .. } => "ok",
+            Outcome::SizeLimit => "size_limit_error",
+            Outcome::Unexpected => "unexpected_buffer_error",
+        };
+        rep.group("h2_outcomes", okind);
+        rep.group("h2_by_len_vs_limit", &format!("{}/{class}/{okind}", len_rel(body.len() as u64, Some(l))));
+        rep.distinct(fnv64(format!("h2|{l}|{}|{sizes:?}|{class}|{okind}", body.len()).as_bytes()));
+    }
+    done
 }
 
 fn dl_snapshot(dl: &Deadline) -> std::time::Instant {
